@@ -122,3 +122,78 @@ Proof. vm_compute. reflexivity. Qed.
 Lemma agg_timeout_demo :
   snd (arun agg0 [AFind 1 id1 8; AAdvance 5; AAdvM (Some d2); AAdvance 5]) = [Done 1%nat NotFound 8].
 Proof. vm_compute. reflexivity. Qed.
+
+(* ------------------------------------------------------------------ aggregate: timeout and cancellation *)
+Definition is_done (k : nat) (o : out) : bool :=
+  match o with Done k' _ _ => Nat.eqb k' k | Raised => false end.
+Definition cnt (k : nat) (os : list out) : nat := length (filter (is_done k) os).
+
+Lemma cnt_app k a b : cnt k (a ++ b) = (cnt k a + cnt k b)%nat.
+Proof. unfold cnt. now rewrite filter_app, app_length. Qed.
+
+Lemma cnt_in k o t l : In (Done k o t) l -> (1 <= cnt k l)%nat.
+Proof.
+  intros H. apply in_split in H. destruct H as (l1 & l2 & ->). rewrite cnt_app. unfold cnt at 2. cbn.
+  rewrite Nat.eqb_refl. cbn. lia.
+Qed.
+
+Lemma aget_aset_same k n m l : aget k l = Some n -> aget k (aset k m l) = Some m.
+Proof.
+  induction l as [|[k0 x] l IH]; cbn; [discriminate|].
+  destruct (Nat.eqb k0 k) eqn:E; cbn; [rewrite Nat.eqb_refl; reflexivity|]. rewrite E. exact IH.
+Qed.
+
+Lemma absorb_notfound k dl : forall os a acc n,
+  aget k (a_tbl a) = Some n -> (1 <= n)%nat -> (n <= cnt k os)%nat ->
+  (forall oc t, In (Done k oc t) os -> oc = NotFound /\ t = dl) ->
+  In (Done k NotFound dl) (snd (fold_left absorb1 os (a, acc))).
+Proof.
+  induction os as [|o os IH]; intros a acc n G N1 C S; [cbn in C; lia|]. cbn [fold_left].
+  destruct (absorb1 (a, acc) o) as [a' acc'] eqn:E.
+  destruct (is_done k o) eqn:D.
+  - destruct o as [k' oc t|]; [|discriminate]. cbn in D. apply Nat.eqb_eq in D. subst k'.
+    destruct (S oc t (or_introl eq_refl)) as [-> ->].
+    cbn [absorb1] in E. rewrite G in E. destruct (n <=? 1)%nat eqn:L.
+    + inversion E; subst. apply absorb_mono. apply in_or_app. right. left. reflexivity.
+    + inversion E; subst. apply Nat.leb_gt in L. apply (IH _ _ (n - 1)%nat).
+      * cbn [a_tbl]. eapply aget_aset_same; eauto.
+      * lia.
+      * unfold cnt in C. cbn in C. rewrite Nat.eqb_refl in C. cbn in C. unfold cnt. lia.
+      * intros oc t Hin. apply S. right. exact Hin.
+  - apply (IH a' acc' n).
+    + change a' with (fst (a', acc')). rewrite <- E. rewrite absorb1_other; [exact G|].
+      intros oc t ->. cbn in D. rewrite Nat.eqb_refl in D. discriminate.
+    + exact N1.
+    + unfold cnt in C. cbn in C. rewrite D in C. exact C.
+    + intros oc t Hin. apply S. right. exact Hin.
+Qed.
+
+Lemma agg_timeout a k key1 key2 dl delta av1 av2 :
+  aget k (a_tbl a) = Some 2%nat ->
+  keys_ok (a_ip a) av1 -> keys_ok (a_ble a) av2 ->
+  pend (a_ip a) k key1 dl -> pend (a_ble a) k key2 dl ->
+  dl <= now (a_ip a) + delta -> dl <= now (a_ble a) + delta ->
+  In (Done k NotFound dl) (snd (astep a (AAdvance delta))).
+Proof.
+  intros G K1 K2 P1 P2 L1 L2. cbn [astep]. unfold both.
+  pose proof (timeout_step mdns_cfg (a_ip a) k key1 dl delta good_mdns P1) as T1.
+  pose proof (timeout_step ble_cfg (a_ble a) k key2 dl delta good_ble P2) as T2.
+  apply N.leb_le in L1, L2. rewrite L1 in T1. rewrite L2 in T2.
+  assert (S1 : forall oc t, In (Done k oc t) (snd (step mdns_cfg (a_ip a) (Advance delta))) -> oc = NotFound /\ t = dl).
+  { intros oc t H. apply timeout_outputs_sound in H. destruct H as (-> & _ & w & Hw & Ek & Ed & _).
+    split; [reflexivity|]. rewrite (pend_unique _ _ _ _ _ w K1 P1 Hw Ek) in Ed. cbn in Ed. congruence. }
+  assert (S2 : forall oc t, In (Done k oc t) (snd (step ble_cfg (a_ble a) (Advance delta))) -> oc = NotFound /\ t = dl).
+  { intros oc t H. apply timeout_outputs_sound in H. destruct H as (-> & _ & w & Hw & Ek & Ed & _).
+    split; [reflexivity|]. rewrite (pend_unique _ _ _ _ _ w K2 P2 Hw Ek) in Ed. cbn in Ed. congruence. }
+  destruct (step mdns_cfg (a_ip a) (Advance delta)) as [s1 o1].
+  destruct (step ble_cfg (a_ble a) (Advance delta)) as [s2 o2]. cbn [snd] in *.
+  unfold absorb. apply (absorb_notfound k dl (o1 ++ o2) _ [] 2%nat).
+  - exact G.
+  - lia.
+  - rewrite cnt_app. pose proof (cnt_in _ _ _ _ T1). pose proof (cnt_in _ _ _ _ T2). lia.
+  - intros oc t H. apply in_app_or in H. destruct H; auto.
+Qed.
+
+Lemma agg_cancel a k n :
+  aget k (a_tbl a) = Some n -> snd (astep a (ACancel k)) = [Done k Cancelled (now (a_ip a))].
+Proof. intros G. cbn [astep]. now rewrite G. Qed.
